@@ -22,7 +22,7 @@ RULE = ("operation alphabets per component (orchestrator: register / status chan
         "filter-by-status / retries / heartbeats + active runners / recovery scans / auto-purge with clock advances / wait graph; broker; state backend: "
         "results, exceptions, history, workflow data, runs, sub-invocations, runner contexts, children, time-range; trigger store: conditions, triggers, valid "
         "conditions, claims with expiry, cron bookkeeping; client data store), small universes (3 tasks, 4 argument values, 3 runners, <= 8 invocations); "
-        "exhaustive pairs/triples over a reduced alphabet + seeded random sequences; distinct = sequence hash with >= 2 operation kinds that changed state")
+        "exhaustive triples (9 operations) / quadruples (7 operations) over a reduced alphabet + seeded random sequences; distinct = sequence hash with >= 2 operation kinds that changed state")
 ASSUMPTIONS = [
     "clock names rebound to one shared virtual clock (ticking, explicit advances); SQLite's julianday('now') stays real (queue order only)",
     "where the abstract base class leaves the order open results are compared as sets; a small limit on the blocking set is compared as 'a subset of the full set of the right size'",
@@ -45,7 +45,7 @@ COMPONENTS = ["orch", "state", "trigger", "cds", "broker", "waitpurge"]
 def gen_cases(tier, seed):
     thorough = tier == "thorough"
     cases = []
-    n = 20000 if thorough else 300
+    n = 8000 if thorough else 300
     per = 100 if thorough else 10
     length = 300 if thorough else 100
     for i in range(n // per):
@@ -345,9 +345,13 @@ def apply(P: Pair, k, op):
     if name == "o_purge":
         return call(lambda: orch.purge())
     if name == "s_purge":
+        # the state backend is purged together with the components that reference its records (app.purge()): purging it alone under a live
+        # orchestrator is outside the documented contract (DESIGN.md 11.3)
         def go():
             flush_history(app)
-            return sb.purge()
+            P.ids[k].clear()
+            P.refs[k].clear()
+            return app.purge()
         return call(go)
     if name == "t_purge":
         return call(lambda: tr.purge())
@@ -536,6 +540,9 @@ class Model:
         if n == "t_purge":
             self.claims.clear(); self.cron.clear()
             return False, None
+        if n == "s_purge":       # app.purge(): every component
+            self.claims.clear(); self.cron.clear(); self.runners.clear(); self.queue.clear()
+            return False, None
         if n == "t_cron_get":
             v = self.cron.get(op[1])
             return True, v
@@ -587,7 +594,12 @@ def compare(P, op, res, V, trail, what):
     return False
 
 
+SEQ_NO = [0]
+
+
 def run_sequence(P, ops_iter, V, hooks, clock):
+    SEQ_NO[0] += 1
+    clock.set(1_700_000_000.0 + SEQ_NO[0] * 100_000.0)   # a round start per sequence: 1 ms steps stay exact to well below the compared millisecond
     trail = []
     kinds_changed = set()
     model = Model()
@@ -671,7 +683,7 @@ def run_case(case):
                     if o[0] not in seen and o[0] != "reg":
                         seen.add(o[0])
                         alphabet.append(o)
-                alphabet = alphabet[:9]
+                alphabet = alphabet[:9 if case["L"] <= 3 else 7]
                 count = 0
                 for seq in itertools.product(alphabet, repeat=case["L"]):
                     count += 1
